@@ -431,6 +431,10 @@ class Coverage(BaseAnalysis):
         self._recurse_attr(node, 'iffalse', *args, **e_kwargs)
 
     def Return(self, node: pr.Return, *args, **kwargs):
+        # the analysis passes over return statements: the returned
+        # expression must not change a variable
+        if SyntaxUtils.has_effect(node.expr):
+            return self.handler(node, *args, **kwargs)
         self._recurse_attr(node, 'expr', *args, **kwargs)
 
     def UnaryOp(self, node: pr.UnaryOp, *args, **kwargs):
